@@ -12,7 +12,7 @@ from .assemble import VERIF, REPO
 
 FAMILIES = {
     'C01': ['stake', 'rewards', 'batch', 'ibc', 'recover', 'instantiate'],
-    'C02': ['stake', 'rewards', 'batch', 'fee_withdraw', 'ibc', 'recover'],
+    'C02': ['stake', 'rewards', 'batch', 'fee_withdraw', 'ibc', 'recover', 'funds'],
     'C03': ['stake', 'batch', 'recover'],
     'C04': ['stake', 'batch'],
     'C05': ['batch', 'funds', 'queries'],
